@@ -188,7 +188,7 @@ func observeRec(o op, r *recRecv) (string, bool, map[string]interface{}) {
 	for i, h := range r.ret {
 		rets[i] = zl(encRecs(h))
 	}
-	term := fmt.Sprintf("{| o_panic := %s; o_err := %s; o_val := %s; o_nil := %s; o_len := %s; o_win := %s; o_same := %s; o_ret := %s |}",
+	term := fmt.Sprintf("{| o_panic := %s; o_err := %s; o_val := %s; o_nil := %s; o_len := %s; o_win := %s; o_same := %s; o_ret := %s; o_seen := [] |}",
 		vhlib.Bool(p), vhlib.Bool(err), vt, vhlib.Bool(after == nil), vhlib.Nat(len(after)), zl(afterFull), vhlib.Bool(same), vhlib.List(rets))
 	return term, p, sum
 }
